@@ -133,6 +133,10 @@ pub struct Process {
     pub result: Option<Result<Value, crate::error::Error>>,
     pub select_state: Option<SelectState>,
     pub awaiting: HashMap<ProcessId, Option<Value>>,
+    /// Awaited processes (of the current select) that are known to have failed, with their error.
+    /// A failed target is a ready source like any other: the select propagates the error when it
+    /// reaches that source in written order.
+    pub awaiting_failed: HashMap<ProcessId, crate::error::Error>,
 }
 
 impl Process {
@@ -146,6 +150,7 @@ impl Process {
             result: None,
             select_state: None,
             awaiting: HashMap::new(),
+            awaiting_failed: HashMap::new(),
         }
     }
 }
